@@ -167,19 +167,35 @@ class MethodMixin:
         if v.sort() == z3.BoolSort():
             return z3.If(v, 1, 0)
         if v.sort() == STR:
-            # int(s): ValueError unless s is a numeral.  ASCII digits only are modelled (a leading sign,
-            # surrounding whitespace, underscores and non-ASCII digits are accepted by CPython: listed assumption)
-            ok = z3.InRe(v, DIGITS)
-            self.assumptions.add('int(str) modelled for ASCII digit strings only; other accepted spellings (sign, spaces, _, Unicode digits) are treated as ValueError')
+            # int(s): acceptance and value are abstract functions of the string (py_int_ok / py_int_val) shared by code
+            # and spec; for [+-]?[0-9]+ they are pinned to the numeral's value.  Other spellings CPython accepts
+            # (spaces, underscores, non-ASCII digits) are neither assumed accepted nor rejected.
+            base = a[1] if len(a) > 1 else 10
+            if is_sym(base):
+                raise Unsupported('int() with a symbolic base')
+            okf = self.ufun(f'py_int_ok_{base}', STR, z3.BoolSort())
+            valf = self.ufun(f'py_int_val_{base}', STR, INT)
+            ok = okf(v)
+            if base == 10:
+                digits = z3.InRe(v, DIGITS)
+                neg = z3.And(z3.PrefixOf(z3.StringVal('-'), v), z3.InRe(z3.SubString(v, 1, z3.Length(v) - 1), DIGITS))
+                pos = z3.And(z3.PrefixOf(z3.StringVal('+'), v), z3.InRe(z3.SubString(v, 1, z3.Length(v) - 1), DIGITS))
+                facts = z3.And(z3.Implies(digits, z3.And(ok, valf(v) == z3.StrToInt(v))),
+                               z3.Implies(neg, z3.And(ok, valf(v) == -z3.StrToInt(z3.SubString(v, 1, z3.Length(v) - 1)))),
+                               z3.Implies(pos, z3.And(ok, valf(v) == z3.StrToInt(z3.SubString(v, 1, z3.Length(v) - 1)))),
+                               z3.Implies(v == z3.StringVal(''), z3.Not(ok)))
+            else:
+                facts = z3.Implies(v == z3.StringVal(''), z3.Not(ok))
             if self.cur_pure():
-                return z3.StrToInt(v)
+                return valf(v)
+            self.path.assume(facts)
             if self.implicit_as_paths:
                 if not self.path.branch(ok):
                     raise PyRaise(ValueError, (), n, implicit=True)
             else:
                 self.oblige('safety:int-of-str', ok, n)
                 self.path.assume(ok)
-            return z3.StrToInt(v)
+            return valf(v)
         raise Unsupported('int()')
 
     def b_str(self, a, k, n, f):
@@ -235,6 +251,11 @@ class MethodMixin:
         if isinstance(a[0], SymRange):
             x = z3.Int('rng!x')
             return VBox('set', z3.Lambda([x], z3.And(x >= a[0].lo, x < a[0].hi)), api.Int)
+        sv = self.symbolic_iter(self.unwrap(a[0], n))
+        if sv is not None and sv.kind == 'seq' and not self.has_concrete_len(a[0]):
+            t = sv.seqs[0]
+            x = z3.Const('setof!x', t.sort().basis())
+            return VBox('set', z3.Lambda([x], z3.Contains(t, z3.Unit(x))))
         items = self.concrete_iter(a[0], n)
         if not any(is_sym(x) for x in items):
             return set(items)
@@ -538,6 +559,8 @@ class MethodMixin:
                 k = self.zs.lift(args[0], dom)
                 has = z3.Select(t, k)
                 val = z3.Select(recv.vsort, k)
+                if recv.keys is not None:
+                    val = self.wrap_sort(val, recv.keys)
                 if len(args) > 1 and args[1] is not None:
                     return self.ite(has, val, args[1])
                 return VOpt(z3.Not(has), val)
@@ -659,7 +682,7 @@ class MethodMixin:
                 raise Unsupported(f'str.{name} with maxsplit')
             return VBox('list', fn(s, *[lift(a) for a in args]))
         if name == 'join':
-            it = args[0]
+            it = self.unwrap(args[0], node)
             if isinstance(it, PyList):
                 it = tuple(it.items)
             t = self.seqterm(it)
